@@ -137,8 +137,13 @@ class FieldMetadata:
             Dimension.THRUST_MODE in self.dimensions,
         ):
             case (False, False, False):
-                # Scalar per-trajectory field.
-                return self.default
+                # Scalar per-trajectory field: the declared default, in the
+                # field's own type like any assigned value (a float32 field
+                # with default 0.1 holds float32(0.1), which is also what
+                # gets stored and read back).
+                if self.default is None or self.field_type is str:
+                    return self.default
+                return self._cast(self.default, 'default')
             case (True, False, False):
                 # Pointwise field along trajectory.
                 return np.zeros(npoints, dtype=self.field_type)
